@@ -88,7 +88,7 @@ type Op struct {
 	Cfg   *IdxCfg        `json:"cfg,omitempty"`
 	Prec  string         `json:"prec,omitempty"`
 	Task  string         `json:"task,omitempty"`
-	Why   string         `json:"why,omitempty"` // generator's note: which class this op was drawn from
+	Why   string         `json:"why,omitempty"`   // generator's note: which class this op was drawn from
 	Stale bool           `json:"stale,omitempty"` // compress: a backup directory of an earlier (interrupted or still being removed) compression is present
 }
 
@@ -133,8 +133,8 @@ type GenParams struct {
 	AllowText                                                                                     bool
 	SmallEfC                                                                                      bool // efConstruction 8 so that batches of >=8 take the parallel path
 	BigBatch                                                                                      bool
-	RecreatePct                                                                                   int // after a drop of an existing index: percentage of cases in which the same name is created again at once and written to
-	SnapEmptyPct                                                                                  int // after a successful create: percentage of cases in which a snapshot (or a log compaction) is taken while the index is still empty
+	RecreatePct                                                                                   int  // after a drop of an existing index: percentage of cases in which the same name is created again at once and written to
+	SnapEmptyPct                                                                                  int  // after a successful create: percentage of cases in which a snapshot (or a log compaction) is taken while the index is still empty
 	NullMeta                                                                                      bool // metadata may carry a key whose value is JSON null (a key the record keeps, with no value)
 }
 
